@@ -3,6 +3,7 @@ package container
 import (
 	"bytes"
 	"encoding/gob"
+	"errors"
 	"fmt"
 
 	"github.com/criyle/go-sandbox/pkg/unixsocket"
@@ -10,6 +11,9 @@ import (
 
 // 32k buffer size
 const bufferSize = 32 << 10
+
+// errPayloadTooLarge is returned for a message that does not fit the buffer; nothing was sent
+var errPayloadTooLarge = errors.New("payload too large")
 
 type socket struct {
 	*unixsocket.Socket
@@ -62,7 +66,7 @@ func (s *socket) SendMsg(e any, msg unixsocket.Msg) error {
 		return fmt.Errorf("send msg: encode: %w", err)
 	}
 	if s.sendBuff.Len() > bufferSize {
-		return fmt.Errorf("send msg: payload too large: %d > %d", s.sendBuff.Len(), bufferSize)
+		return fmt.Errorf("send msg: %w: %d > %d", errPayloadTooLarge, s.sendBuff.Len(), bufferSize)
 	}
 
 	if err := s.Socket.SendMsg(s.sendBuff.Bytes(), msg); err != nil {
